@@ -15,10 +15,12 @@ Proof.
 Qed.
 
 (* ---------- histories that never give up the promise ---------- *)
-(* no max is lowered and no already-bound pod is replayed *)
+(* no max is lowered and no already-bound pod is replayed (or assigned by a later update event) *)
 Definition benign_op (st : state) (o : op) : bool :=
   match o with
   | OPodAddBound _ _ _ _ _ => false
+  | OPodRelabel id =>   (* an update event assigns an unassigned pod that carries a node name *)
+      match find_pod id (pods st) with Some p => p_assigned p || negb (p_bound p) | None => true end
   | OQuotaUpdate id mx _ _ _ =>
       match find_quota id (quotas st) with Some q => negb (lowers q mx) | None => true end
   | _ => true
@@ -67,7 +69,7 @@ Lemma TI_step cfg wf st o :
 Proof.
   intros I T Hb.
   destruct o as [id parent lend decl mx mindecl mn w|id mx mindecl mn w|id qn np req keys|id|id|id|id|id|t
-                 |id qn np req keys|id|]; unfold step, apply_attempt; cbv zeta.
+                 |id qn np req keys|id|id|]; unfold step, apply_attempt; cbv zeta.
   - (* quota add *)
     destruct (id <=? 0) eqn:E0; cbn [orb fst]; [exact T|].
     destruct (find_quota id (quotas st)) eqn:Ef; cbn [orb fst]; [exact T|].
@@ -131,6 +133,12 @@ Proof.
     destruct (find_quota id (quotas st)) as [q00|]; cbn [fst quotas]; [|exact T].
     apply TI_refresh. apply TI_map; [apply neutral_keeps, neutral_flip| |exact T].
     intros q _. destruct (q_id q =? id); reflexivity.
+  - (* pod relabel *)
+    cbn [benign_op] in Hb.
+    destruct (find_pod id (pods st)) as [p|]; cbn [fst]; [|exact T].
+    destruct (p_assigned p); cbn [orb negb] in Hb.
+    + cbn [fst quotas]. apply TI_touch. apply TI_upd_used. exact T.
+    + destruct (p_bound p); [discriminate Hb|]. cbn [fst quotas]. apply TI_touch. exact T.
   - exact T.
 Qed.
 
@@ -186,8 +194,8 @@ Qed.
 
 (* ---------- where the ghost flag comes from ---------- *)
 (* One step sets the flag of a quota only for one of the three stated reasons:
-   its own max is lowered, an already-bound pod is replayed at or below it, or a child quota is
-   created under it while parent checking is off.  (So "flag clear" in [used_le_max_flag] means
+   its own max is lowered, an already-bound pod is replayed (or assigned by a label update) at or
+   below it, or a child quota is created under it while parent checking is off.  (So "flag clear" in [used_le_max_flag] means
    exactly: none of these ever happened to the quota.) *)
 Definition taint_reason (cfg : config) (st : state) (o : op) (i : Z) : Prop :=
   match o with
@@ -195,6 +203,9 @@ Definition taint_reason (cfg : config) (st : state) (o : op) (i : Z) : Prop :=
       id = i /\ exists q, In q (quotas st) /\ q_id q = i /\ lowers q mx = true
   | OPodAddBound _ qn _ _ _ => In i (map q_id (path st qn))
   | OQuotaAdd _ parent _ _ _ _ _ _ => parent = i /\ chk_parent cfg = false
+  | OPodRelabel id =>
+      exists p, find_pod id (pods st) = Some p /\ p_assigned p = false /\ p_bound p = true
+                /\ In i (map q_id (path st (p_quota p)))
   | _ => False
   end.
 
@@ -245,7 +256,7 @@ Theorem taint_origin cfg st o q' :
 Proof.
   unfold was_tainted.
   destruct o as [id parent lend decl mx mindecl mn w|id mx mindecl mn w|id qn np req keys|id|id|id|id|id|t
-                 |id qn np req keys|id|]; unfold step, apply_attempt; cbv zeta; cbn [taint_reason].
+                 |id qn np req keys|id|id|]; unfold step, apply_attempt; cbv zeta; cbn [taint_reason].
   - (* quota add *)
     destruct (id <=? 0); cbn [orb fst]; [intros H Ht; left; exists q'; auto|].
     destruct (find_quota id (quotas st)); cbn [orb fst]; [intros H Ht; left; exists q'; auto|].
@@ -313,6 +324,20 @@ Proof.
     left. apply (taint_map_same (fun q => if q_id q =? id then set_lend q (negb (q_lend q)) else q) (quotas st) q1);
       [|exact H1|exact T1].
     intro q. destruct (q_id q =? id); split; reflexivity.
+  - (* pod relabel *)
+    destruct (find_pod id (pods st)) as [p|] eqn:Ef; cbn [fst]; [|intros H Ht; left; exists q'; auto].
+    destruct (p_assigned p) eqn:Ea.
+    + cbn [fst quotas]. intros H Ht.
+      destruct (taint_touch _ _ _ _ _ H Ht) as (q1 & H1 & E1 & T1). rewrite <- E1.
+      left. apply (taint_upd_used _ _ _ _ _ H1 T1).
+    + destruct (p_bound p) eqn:Eb; cbn [fst].
+      * unfold charge. cbn [quotas]. intros H Ht.
+        destruct (taint_upd_used _ _ _ _ _ H Ht) as (q1 & H1 & E1 & T1). rewrite <- E1.
+        destruct (taint_touch _ _ _ _ _ H1 T1) as (q2 & H2 & E2 & T2). rewrite <- E2.
+        destruct (taint_taint_ids _ _ _ H2 T2) as [(q0 & H0 & E0 & T0)|Hin].
+        -- left. exists q0. auto.
+        -- right. exists p. auto.
+      * cbn [quotas]. intros H Ht. left. apply (taint_touch _ _ _ _ _ H Ht).
   - intros H Ht; left; exists q'; auto.
 Qed.
 
